@@ -549,7 +549,9 @@ class Fxp():
             else:
                 int_dtype = np.uint64
 
-            # find fractional parts
+            # find fractional parts (in double precision: float16 / float32 residues are not exact)
+            if np.issubdtype(val.dtype, np.floating) and val.dtype.itemsize < 8:
+                val = val.astype(float)
             frac_vals = np.abs(val%1).ravel()
 
             # n_frac estimation
@@ -572,10 +574,14 @@ class Fxp():
             # max raw value (integer) estimation
             # n_int = max( np.ceil(np.log2(np.max(np.abs( val*(1 << n_frac) + 0.5 )))).astype(int_dtype) - n_frac, 0)
             
-            val_max = int(np.max(val)*(1 << n_frac))
-            val_min = int(np.min(val)*(1 << n_frac))
+            val_max, val_min = np.max(val), np.min(val)
+            if isinstance(val_max, (np.integer, np.floating)):
+                # narrow NumPy types: scale in Python arithmetic (an int8 / float16 ... product would wrap or overflow)
+                val_max, val_min = val_max.item(), val_min.item()
+            val_max = int(val_max*(1 << n_frac))
+            val_min = int(val_min*(1 << n_frac))
             n_int = 0
-            while n_int < n_word_max - sign:
+            while n_int < n_word_max - sign + n_frac:    # (at most n_word_max - sign bits of integer part)
                 msb_max = (val_max >> n_int) + (1 if val_max < 0 else 0)
                 msb_min = (val_min >> n_int) + (1 if val_min < 0 else 0)
 
